@@ -21,6 +21,8 @@ for d in sorted(glob.glob(os.path.join(VERIF, 'seeded', '*'))):
         summ = summ[:137] + '…'
     rnd = m.get('round', 1)
     res = ('caught (%s)' % r.get('caught_at')) if r.get('caught') else 'MISSED'
+    if m.get('void_after') and not r.get('caught'):
+        res = 'void since %s: %s' % (m['void_after'], m.get('void_reason', 'no longer breaks the property'))
     if others:
         res += '; also ' + ', '.join(others)
     rows.append('| %s | %d | %s | %s | `%s` |' % (sid, rnd, summ, res, how))
